@@ -1,0 +1,11 @@
+//go:build verif
+
+// Contracts for package keypem, checked by /verif (bfvc). Comment-only.
+package keypem
+
+// pemPrivKeyOK(b): b contains a PEM block of the private-key type whose body unmarshals to a key.
+// Assumed (definitional): a key is returned only for such input.
+//@ spec fun pemPrivKeyOK(b bytes) bool
+//@ func ParsePrivKeyPem
+//@   trusted abstraction of encoding/pem and key unmarshalling
+//@   ensures ret1 == nil && ret0 != nil ==> pemPrivKeyOK(pemDat)
